@@ -548,6 +548,11 @@ def panic_sites_of_file(fs):
                 p = toks[i - 1]
                 ends = (p[0] == 'id' and p[1] not in KEYWORDS) or (p[0] == 'int' and i > 1 and is_p(toks[i - 2], '.')) \
                     or (p[0] == 'p' and p[1] in (')', ']', '?'))
+                if ends and is_p(p, ')'):
+                    # `pub(crate) [T; N]` (a field type inside a macro body) is a visibility, not a receiver
+                    m = match_back(toks, i - 1, max(0, i - 8))
+                    if m is not None and m > 0 and toks[m - 1][0] == 'id' and toks[m - 1][1] == 'pub':
+                        ends = False
                 if ends:
                     k = rslex.match_delim(toks, i)
                     s = postfix_start(toks, i - 1, lo_of(i))
@@ -589,6 +594,28 @@ def body_stmts(it):
 
 
 _SELF_FIELD_ZEROIZE = re.compile(r'^self\.([A-Za-z_0-9]+)\.zeroize\(\)$')
+_ZOP_PATTERNS = [
+    (re.compile(r'^self\.(\w+)\.zeroize\(\)$'), lambda m: ('zeroizeField', m.group(1))),
+    (re.compile(r'^\(self\.(\w+)\)\.(\w+)\.zeroize\(\)$'), lambda m: ('zeroizeField', m.group(1) + '.' + m.group(2))),
+    (re.compile(r'^self\.(\w+)\.iter_mut\(\)\.zeroize\(\)$'), lambda m: ('zeroizeElems', m.group(1))),
+    (re.compile(r'^self\.(\w+)\[(\d+)\] = (\d+)$'), lambda m: ('setByte', m.group(1), int(m.group(2)), int(m.group(3)))),
+    (re.compile(r'^self\.(\w+) = (.+)$'), lambda m: ('assignConst', m.group(1), m.group(2))),
+    (re.compile(r'^\*self = (.+)$'), lambda m: ('assignSelf', m.group(1))),
+]
+
+
+def zops(body):
+    """structured form of the normalised statements of a `fn zeroize` body."""
+    out = []
+    for st in body:
+        for rx, f in _ZOP_PATTERNS:
+            m = rx.match(st)
+            if m:
+                out.append(f(m))
+                break
+        else:
+            out.append(('other', st))
+    return out
 
 
 def drop_and_zeroize_facts(scans):
@@ -696,6 +723,8 @@ def drop_and_zeroize_facts(scans):
         dfacts.append(d)
     dfacts.sort(key=lambda d: (d['file'], d['ty']))
     zfacts.sort(key=lambda d: (d['file'], d['ty']))
+    for z in zfacts:
+        z['ops'] = zops(z['body'])
     return dfacts, zfacts
 
 
@@ -858,6 +887,10 @@ def llist(xs):
     return '[' + ', '.join(lstr(x) for x in xs) + ']'
 
 
+def lzop(o):
+    return '.' + o[0] + ''.join(' ' + (str(x) if isinstance(x, int) else lstr(x)) for x in o[1:])
+
+
 def lbool(b):
     return 'true' if b else 'false'
 
@@ -873,9 +906,18 @@ def emit_lean(header, inv):
          'structure DropFact where\n  ty : String\n  file : String\n  mechanism : String\n  gate : String\n'
          '  zeroized : List String\n  fields : List String\n  fieldTypes : List String\n  marker : Bool\n'
          '  body : List String\n',
-         '/-- `impl Zeroize for T` (or `derive(Zeroize)`): the normalised statements of `fn zeroize`. -/',
+         '/-- structured form of one statement of a `fn zeroize` body (`f` is a field path such as `X`, `0`, `0.0`) -/',
+         'inductive ZOp where\n'
+         '  | zeroizeField (f : String)              -- `self.f.zeroize()`\n'
+         '  | zeroizeElems (f : String)              -- `self.f.iter_mut().zeroize()`\n'
+         '  | setByte (f : String) (i v : Nat)       -- `self.f[i] = v`\n'
+         '  | assignConst (f : String) (c : String)  -- `self.f = C`\n'
+         '  | assignSelf (c : String)                -- `*self = C`\n'
+         '  | other (s : String)                     -- anything else\n',
+         '/-- `impl Zeroize for T` (or `derive(Zeroize)`): the normalised statements of `fn zeroize` (`body`) and\n'
+         'their structured form (`ops`). -/',
          'structure ZeroizeFact where\n  ty : String\n  file : String\n  gate : String\n  derived : Bool\n'
-         '  body : List String\n',
+         '  body : List String\n  ops : List ZOp\n',
          '/-- Heap buffers of a function: `vecLocals` = locals that are `Vec`s (declared `Vec<..>`, `vec![..]`,\n'
          '`.collect::<Vec<_>>()`), `wiped` = those that are zeroised by a top-level statement of the function body\n'
          '(`Zeroize::zeroize(&mut v)` / `v.zeroize()`) or moved into a `Zeroizing::new(..)` wrapper.\n'
@@ -898,8 +940,9 @@ def emit_lean(header, inv):
         for d in inv['drop_facts']) + ']\n')
     o.append('def zeroizeFacts : List ZeroizeFact := [')
     o.append(',\n'.join(
-        '  { ty := %s, file := %s, gate := %s, derived := %s,\n    body := %s }'
-        % (lstr(z['ty']), lstr(z['file']), lstr(z['gate']), lbool(z['derived']), llist(z['body']))
+        '  { ty := %s, file := %s, gate := %s, derived := %s,\n    body := %s,\n    ops := [%s] }'
+        % (lstr(z['ty']), lstr(z['file']), lstr(z['gate']), lbool(z['derived']), llist(z['body']),
+           ', '.join(lzop(o) for o in z['ops']))
         for z in inv['zeroize_facts']) + ']\n')
     o.append('def wipeFacts : List WipeFact := [')
     o.append(',\n'.join(
